@@ -11,6 +11,6 @@ SourceVersionsQuick == {"2", "4", "6", "11", "12"}
 Emit ==
     Done => PrintT(ToJson([ver |-> ver, kind |-> ev.kind, via |-> ev.via, tsrv |-> ev.tsrv, asrv |-> ev.asrv,
                            esrv |-> ev.esrv, etype |-> TypeOf(ev), pres |-> pres, ktop |-> TopKeep(RedactionAlgo(ver)),
-                           kcon |-> KeptCon(ver, ev), ktpi |-> KeptTpi(ver, ev), kkey |-> KeptKey(ver, ev), tm |-> tm, sig |-> sig, src |-> src, vol |-> vol, required |-> R,
+                           kcon |-> KeptCon(ver, ev), ktpi |-> KeptTpi(ver, ev), kkey |-> KeptKey(ver, ev), tm |-> tm, sig |-> sig, src |-> src, vol |-> vol, fail |-> fail, mapst |-> mapst, required |-> R,
                            strict |-> StrictKeyValidity(ver), verdict |-> verdict]))
 =============================================================================
